@@ -3,9 +3,10 @@ package checks
 import (
 	"context"
 	"sort"
+	"strings"
 
-	memdb "git.defalsify.org/vise.git/db/mem"
 	"git.defalsify.org/vise.git/db"
+	memdb "git.defalsify.org/vise.git/db/mem"
 
 	"visim/app"
 	"visim/core"
@@ -29,10 +30,10 @@ func init() {
 			"well-formedness as stated by the property: targets exist, _catch defined, flags in range, no self-move, every move cycle passes a HALT; one run in 50 of the generated kind is a two-node application whose nodes descend into each other, driven to and beyond 128 stack entries",
 			"panics of the harness' own stubs are infrastructure errors, not violations",
 		},
-		Real:       append(append([]string{}, realAll...), "db/fs (compiled against the simulated os)", "db/postgres", "asm (assembling the examples)"),
-		Stub:       append(append([]string{}, stubAll...), "OS filesystem (simfs)", "Postgres server (pgfake)"),
+		Real:            append(append([]string{}, realAll...), "db/fs (compiled against the simulated os)", "db/postgres", "asm (assembling the examples)"),
+		Stub:            append(append([]string{}, stubAll...), "OS filesystem (simfs)", "Postgres server (pgfake)"),
 		HangIsViolation: true, // the property promises that requests are served
-		FaultKinds: []string{"restart", "ext_error", "ext_oversize", "client_garbage", "client_browse_oob", "first_func_error", "template_lookup_error", "client_write_error"},
+		FaultKinds:      []string{"restart", "ext_error", "ext_oversize", "client_garbage", "client_browse_oob", "first_func_error", "first_func_blocks_request", "template_lookup_error", "client_write_error"},
 	})
 }
 
@@ -197,9 +198,18 @@ func runC08(c *core.Ctx) *core.Outcome {
 		if t.Chance(1, 20) {
 			s.FailWriteThisRequest = true
 		}
+		if cfg.First && deepReq == 0 && !s.FailFirstNext && t.Chance(1, 10) {
+			// the pre-VM function turns the request away (TERMINATE plus a notice of a drawn length)
+			s.BlockFirstNext = strings.Repeat("barred ", t.Range(1, 40))
+		}
 		t.End()
 		ff := s.FirstFailed
+		fb := s.FirstBlocked
 		st := s.Request(in, fresh)
+		s.BlockFirstNext = ""
+		if s.FirstBlocked > fb {
+			o.Faults["first_func_blocks_request"]++
+		}
 		if s.FirstFailed > ff {
 			o.Faults["first_func_error"]++
 			if deepReq > 0 {
@@ -228,6 +238,11 @@ func runC08(c *core.Ctx) *core.Outcome {
 		o.States = append(o.States, stateHash(s))
 		if cl, msg := consistency(s.St, s.Ca); cl != "" {
 			return finishC08(o, c, w, exName).Fail(cl, i, nil, "after request %d input %s: %s", i, short(string(in)), msg)
+		}
+		if s.Ca != nil && s.Ca.CacheSize != cfg.CacheSize {
+			// the size accounting of a session includes what it is accounted against: the capacity the
+			// gateway configured (the same for every request of the run) is not the session's to lose
+			return finishC08(o, c, w, exName).Fail("cache-capacity-changed", i, nil, "after request %d input %s: the session's symbol cache has capacity %d, configured is %d (used %d)", i, short(string(in)), s.Ca.CacheSize, cfg.CacheSize, s.Ca.CacheUseSize)
 		}
 		// the session can still be saved, loaded and continued
 		if s.St != nil && s.Ca != nil && (t.Chance(1, 3) || s.FirstFailed > ff) {
